@@ -12,14 +12,14 @@ package fatigue
 //@   opaque
 
 //@ func (*ConstFatigueFunction).Evaluate
-//@   property C17
+//@   property C17 C09 C01
 //@   ensures [const] result == params.(*ConstFatigueParams).Value
 //@ func (*ExponentialFromZeroFatigue).Evaluate
-//@   property C17
+//@   property C17 C09 C01
 //@   ensures [exp] result == params.(*ExpFatigueParams).Multiplier * exp(params.(*ExpFatigueParams).Alpha * real(params.(*ExpFatigueParams).QueryNumber)) - params.(*ExpFatigueParams).Multiplier
 
 //@ func blurCriteriaValues
-//@   property C17 C07 C09
+//@   property C17 C07 C09 C01
 //@   fnparam valueGenerator ensures 0.0 <= result && result < 1.0
 //@   fnparam signGenerator ensures 0.0 <= result && result < 1.0
 //@   requires forall i int, j int :: 0 <= i && i < j && j < len(criteria) ==> criteria[i].criterion.Id != criteria[j].criterion.Id
@@ -57,7 +57,7 @@ package fatigue
 //@      b.valueRange.Min == utils.scaledMin(r, b.bounding.AllowedValuesRangeScaling) && b.valueRange.Max == utils.scaledMax(r, b.bounding.AllowedValuesRangeScaling)
 
 //@ func matchCriteriaWithBoundings
-//@   property C17 C07 C09
+//@   property C17 C07 C09 C01
 //@   ensures [criteria_in_order] fresh(result) && len(result) == len(dmp.Criteria) && forall k int :: 0 <= k && k < len(dmp.Criteria) ==> result[k].criterion == dmp.Criteria[k]
 //@   ensures [clipping_interval_from_declared_range] forall k int :: 0 <= k && k < len(dmp.Criteria) && dmp.Criteria[k].ValuesRange != nil ==> result[k].bounding != nil
 //@             && (result[k].bounding.valueRange != nil ==> clippedFrom(*result[k].bounding, old(*dmp.Criteria[k].ValuesRange)))
@@ -72,7 +72,7 @@ package fatigue
 //@             && (result[k].bounding.valueRange != nil ==> exists r utils.ValueRange :: model.observed(r, alternatives, dmp.Criteria[k].Id) && clippedFrom(*result[k].bounding, r))
 
 //@ func prepareResult
-//@   property C17 C09 C07
+//@   property C17 C09 C07 C01
 //@   ensures [state] fresh(result) && fresh(result.DMP) && result.DMP.ConsideredAlternatives == consideredAlts && result.DMP.NotConsideredAlternatives == notConsideredAlts
 //@   ensures [untouched] result.DMP.Criteria == current.Criteria && result.DMP.MethodParameters == current.MethodParameters
 //@   ensures [report] typeis(result.Props, FatigueResult) && result.Props.(FatigueResult).EffectiveFatigueRatio == fatigueRatio
@@ -101,10 +101,10 @@ package fatigue
 
 // ---- no state shared between requests (C09): every request decodes its function parameters into a new object
 //@ func (*ConstFatigueFunction).BlankParams
-//@   property C09 C17
+//@   property C09 C17 C01
 //@   nopanic
 //@   ensures [new_object_each_time] typeis(result, *ConstFatigueParams) && fresh(result.(*ConstFatigueParams))
 //@ func (*ExponentialFromZeroFatigue).BlankParams
-//@   property C09 C17
+//@   property C09 C17 C01
 //@   nopanic
 //@   ensures [new_object_each_time] typeis(result, *ExpFatigueParams) && fresh(result.(*ExpFatigueParams))
